@@ -199,6 +199,9 @@ fn interleave(ctx: &mut Ctx, env: &Env, rng: &mut Rng) {
     let g0 = getters(&engine);
     let fp = engine.condition.get_fperiod();
     let mut live: Vec<(usize, SpeechGenerator, usize)> = Vec::new(); // (utterance, generator, frames taken)
+    // one frame buffer for the whole program, as a streaming caller has it: what an earlier
+    // step (of any generator) left in it must not show in a later frame
+    let mut frame_buf: Vec<f64> = vec![7.25e77; fp];
     let mut prog: Vec<String> = Vec::new();
     let mut distinct_utts = BTreeSet::new();
     let mut with_live = false;
@@ -251,8 +254,8 @@ fn interleave(ctx: &mut Ctx, env: &Env, rng: &mut Rng) {
                 prog.push(format!("g{}.step x{}", k, n));
                 for _ in 0..n {
                     let (u, g, taken) = &mut live[k];
-                    let mut buf = vec![0.0; fp];
-                    let r = g.generate_step(&mut buf);
+                    let buf = &mut frame_buf;
+                    let r = g.generate_step(buf);
                     let total = refs[*u].len() / fp;
                     if *taken < total {
                         if r != fp || !bits_eq(&buf, &refs[*u][*taken * fp..(*taken + 1) * fp]) {
@@ -446,6 +449,26 @@ fn setter_history(ctx: &mut Ctx, env: &Env, rng: &mut Rng) {
         if !ok {
             ctx.violation("weights-in-force-rejected-by-their-own-setter", J::from(v.descr.clone()));
             return;
+        }
+        // ... and then refused updates of the right length (bad sum, zeros at the end, a NaN):
+        // a refusal leaves the engine exactly as it was
+        {
+            let mut bad = vec![0.0; nv];
+            bad[0] = *rng.pick(&[0.5, 2.0, 0.999]);
+            let mut refused = iw.set_duration(&bad).is_err();
+            for i in 0..n {
+                refused &= iw.set_parameter(i, &bad).is_err();
+                refused &= iw.set_gv(i, &bad).is_err();
+            }
+            let mut nan = vec![0.0; nv];
+            nan[nv - 1] = f64::NAN;
+            nan[0] = 0.5;
+            refused &= iw.set_duration(&nan).is_err();
+            if !refused {
+                ctx.violation("invalid-weights-accepted", J::from(v.descr.clone()));
+                return;
+            }
+            log.push(format!("refused updates {:?} on every weight vector", bad));
         }
         log.push(if untouched_weights { "weights set back to the loaded ones".into() } else { "weights set to a's".into() });
         ctx.count(if untouched_weights { "histories_against_untouched_weights" } else { "histories_against_set_weights" }, 1.0);
